@@ -55,3 +55,67 @@ func callsReaching(c *eng.Ctx, fn *ssa.Function, depth int, pred func(ssa.CallIn
 	}
 	return out
 }
+
+// usedAsValue reports whether function f appears anywhere other than in the callee position
+// of a static call (stored, passed, bound in a closure): such a function may be called from
+// places the call graph of static calls does not show.
+func usedAsValue(c *eng.Ctx, f *ssa.Function) bool {
+	for _, g := range c.P.Funcs {
+		for _, b := range g.Blocks {
+			for _, in := range b.Instrs {
+				var buf [10]*ssa.Value
+				for _, op := range in.Operands(buf[:0]) {
+					if op == nil || *op != ssa.Value(f) {
+						continue
+					}
+					if call, ok := in.(ssa.CallInstruction); ok && call.Common().Value == ssa.Value(f) {
+						// callee position, unless it is also an argument
+						isArg := false
+						for _, a := range call.Common().Args {
+							if a == ssa.Value(f) {
+								isArg = true
+							}
+						}
+						if !isArg {
+							continue
+						}
+					}
+					return true
+				}
+			}
+		}
+	}
+	return false
+}
+
+// classifiedSite looks the function up in a who-may-call table. An unexported function that
+// the table does not name inherits the class of its callers when it is never used as a value
+// and every static call of it comes from a function of the table (or from such a helper, two
+// levels deep): a rule of the form "only these functions do X" stays indifferent to the
+// extraction of X into a private helper of one of them.
+func classifiedSite(c *eng.Ctx, root *ssa.Function, table map[string]string) (string, bool) {
+	var rec func(f *ssa.Function, depth int) (string, bool)
+	rec = func(f *ssa.Function, depth int) (string, bool) {
+		name := c.P.FnName(f)
+		if why, ok := table[name]; ok {
+			return why, true
+		}
+		if depth == 0 || f.Object() == nil || f.Object().Exported() || usedAsValue(c, f) {
+			return "", false
+		}
+		sites := c.P.AllCallsTo(name)
+		if len(sites) == 0 {
+			return "", false
+		}
+		why := ""
+		for _, s := range sites {
+			w, ok := rec(eng.Root(s.Fn), depth-1)
+			if !ok {
+				return "", false
+			}
+			why = "private helper of " + c.P.FnName(eng.Root(s.Fn)) + ": " + w
+		}
+		return why, true
+	}
+	return rec(root, 2)
+}
